@@ -22,7 +22,7 @@ pub struct C02Case {
 }
 
 pub fn strategy(thorough: bool) -> BoxedStrategy<C02Case> {
-    let mix = Mix { update: 9, commit: 7, meldrefresh: 6, filecopy: 1, resolve: 2, timetravel: 1, snapshot: 1, ..Mix::default() };
+    let mix = Mix { update: 9, commit: 7, meldrefresh: 6, filecopy: 1, resolve: 2, timetravel: 1, snapshot: 1, rich: true, rich_info: true, ..Mix::default() };
     let len = if thorough { 60 } else { 30 };
     (2u8..=3, gen::history(&mix, len), any::<u64>(), prop::option::of(any::<u64>()), prop::bool::weighted(0.3))
         .prop_map(|(n, ops, perm, listing, packs_last)| C02Case {
